@@ -14,6 +14,7 @@ import OFV.Proofs.C01Ising
 import OFV.Proofs.C01Majorana
 import OFV.Proofs.C01Hom
 import OFV.Proofs.SpecCAR
+import OFV.Proofs.SpecBoson
 
 namespace OFV.C01
 open OFV OFV.Spec OFV.Generated OFV.Model
@@ -319,6 +320,15 @@ theorem mul_hom_majorana (A B : MOp) (hA : ∀ e ∈ A, e.1.Pairwise (· < ·))
 /-- `⟦A += B⟧ = ⟦A⟧ + ⟦B⟧` for MajoranaOperator (no deletion of small sums there). -/
 theorem add_hom_majorana (φ : MTerm → GQ) (A B : MOp) : den φ (miadd A B) = den φ A + den φ B :=
   den_miadd φ A B
+
+/-- **`BosonOperator._simplify` and `QuadOperator._simplify` are sound**: the stable index sort
+(coefficient factor 1) leaves the action of every term on every monomial of the polynomial
+(Bargmann / Schrödinger) representation unchanged — for all terms, all `ħ`. -/
+theorem simplifyBosonQuad_sound (t : Term) (e : Mono) (hbar : GQ) :
+    (simplify .boson t).1 = 1 ∧ (simplify .quad t).1 = 1 ∧
+    actTermWith actB (simplify .boson t).2 e = actTermWith actB t e ∧
+    actTermWith (actQuad hbar) (simplify .quad t).2 e = actTermWith (actQuad hbar) t e :=
+  ⟨rfl, rfl, actB_sortF t e, actQuad_sortF hbar t e⟩
 
 /-- Sanity of the fermionic Spec all fermion statements (C03, C04, …) are measured against: the
 ladder action on Fock masks satisfies the canonical anticommutation relations
